@@ -331,6 +331,7 @@ int INTERNAL qt_process_blocking_call(void)
                               (const void *)item->args[1],
                               (size_t)item->args[2]);
 #endif
+            break;
         case PWRITE:
 #if HAVE_SYSCALL && HAVE_DECL_SYS_PWRITE
             item->ret = syscall(SYS_pwrite,
